@@ -1,1 +1,127 @@
+(* Property C20 — barriers observe every matching trigger once and suspend only
+   when asked.  This file only states the theorems and closes them with the
+   lemmas of C20_proofs.v; see DESIGN.md section 5 (C20).
+
+   All theorems hold for an arbitrary type V of trigger values, arbitrary
+   conditions (functions V -> bool), and — where a history is mentioned — every
+   sequence of Build / Trigger / TriggerNoop / Wait / DropHandle / DropBarrier
+   events from any number of sources.  NOT covered by these theorems (runtime
+   behaviour, checked by the correspondence harness through progress counters
+   only): that a tokio task whose state is `Suspended` really executes
+   nothing, and that it resumes once its state is `Running` again. *)
 From TV.Lib Require Import Base.
+From Coq Require Import Sorted.
+From TV.Barriers Require Import Model C20_proofs.
+Open Scope N_scope.
+
+(* For every history and every barrier id b: the values returned by `wait` on b,
+   in order, followed by what is still queued for b, are exactly the trigger
+   calls whose earliest-created live matching barrier (computed from the API
+   calls alone: `expect`) was b and whose reaction lets the call be reported —
+   in trigger order; after b is dropped the waited values stay a prefix.
+   Trigger ids in that list are strictly increasing, so each call is reported
+   at most once; `dest` is a function, so it is reported to one barrier only. *)
+Theorem reported_once_in_order : forall (V : Type) (es : list (ev V)) (b : N),
+  let eos := combine es (snd (run V (init V) es)) in
+  (exists q, waited V b eos ++ q = expect V b [] 0 eos /\
+     (forall x, get_barrier V b (regs (final V (init V) es)) = Some x -> q = map (tv V) (b_fifo x))) /\
+  StronglySorted (tid_lt V) (expect V b [] 0 eos).
+Proof.
+  intros V es b eos. split.
+  - exact (report_main V es (init V) (regok_init V) b).
+  - apply expect_sorted.
+Qed.
+
+(* Suspend: the triggering source is Suspended right after the call and its
+   release token is queued in that barrier; a suspended source stays
+   suspended under every event that does not drop the handle carrying its
+   token or the barrier still holding it undelivered, and is Running right
+   after such a drop; and in every reachable state a suspended source does have
+   such a token (some DropHandle / DropBarrier releases it). *)
+Theorem suspend_until_release : forall (V : Type),
+  (forall s src v b, sget (srcs s) src = Running -> first_match V (regs s) v = Some b -> b_react b = Suspend ->
+     let s' := fst (step V s (Trigger src v)) in
+     sget (srcs s') src = Suspended /\
+     (forall k, k <> src -> sget (srcs s') k = sget (srcs s) k) /\
+     handles s' = handles s /\
+     regs s' = upd_fifo V (b_id b) (fun f => f ++ [{| e_val := v; e_rel := Some src; e_tid := ntid s |}]) (regs s)) /\
+  (forall s src e, sget (srcs s) src = Suspended -> releases V s src e = false ->
+     sget (srcs (fst (step V s e))) src = Suspended) /\
+  (forall s src e, releases V s src e = true -> sget (srcs (fst (step V s e))) src = Running) /\
+  (forall es src, let s := final V (init V) es in
+     sget (srcs s) src = Suspended -> In src (tokens V s) /\ exists e, releases V s src e = true).
+Proof.
+  intros V. split; [exact (suspend_lemma V)|]. split; [exact (stays_suspended V)|]. split; [exact (release_runs V)|].
+  intros es src s S.
+  pose proof (run_regok V es (init V) (regok_init V)) as OK.
+  pose proof (run_tokinv V es (init V) (regok_init V) (tokinv_init V) src S) as T.
+  split; [exact T|]. now apply token_usable.
+Qed.
+
+(* Noop: the call is queued with no release token and no source changes state
+   (the caller stays Running), for trigger and trigger_noop alike. *)
+Theorem noop_never_blocks : forall (V : Type) s src v b e,
+  is_trigger V e src v -> sget (srcs s) src = Running ->
+  first_match V (regs s) v = Some b -> b_react b = Noop ->
+  let s' := fst (step V s e) in
+  srcs s' = srcs s /\ sget (srcs s') src = Running /\ handles s' = handles s /\
+  regs s' = upd_fifo V (b_id b) (fun f => f ++ [{| e_val := v; e_rel := None; e_tid := ntid s |}]) (regs s).
+Proof. exact noop_lemma. Qed.
+
+(* Panic (and trigger_noop hitting a Suspend barrier): the caller panics,
+   nothing is queued anywhere, nobody else is affected. *)
+Theorem panic_panics : forall (V : Type) s src v b e,
+  is_trigger V e src v -> sget (srcs s) src = Running ->
+  first_match V (regs s) v = Some b ->
+  (b_react b = Panic \/ (b_react b = Suspend /\ e = TriggerNoop src v)) ->
+  let s' := fst (step V s e) in
+  sget (srcs s') src = Panicked /\ regs s' = regs s /\ handles s' = handles s /\
+  (forall k, k <> src -> sget (srcs s') k = sget (srcs s) k).
+Proof. exact panic_lemma. Qed.
+
+(* No live barrier matches: nothing changes (the call returns at once and is
+   reported nowhere); and a barrier that existed and was dropped is never in
+   the registry again, whatever follows, so it can neither match nor be waited on. *)
+Theorem no_match_immediate : forall (V : Type),
+  (forall s src v e, is_trigger V e src v -> first_match V (regs s) v = None ->
+     let s' := fst (step V s e) in regs s' = regs s /\ srcs s' = srcs s /\ handles s' = handles s) /\
+  (forall es1 b es2, let s1 := final V (init V) es1 in b < nbid s1 ->
+     get_barrier V b (regs (final V (fst (step V s1 (DropBarrier b))) es2)) = None) /\
+  (forall l v x, first_match V l v = Some x -> In x l /\ b_cond x v = true).
+Proof.
+  intros V. split; [exact (no_match_lemma V)|]. split; [|exact (first_match_in V)].
+  intros es1 b es2 s1 L. apply dead_stays.
+  - cbn. destruct (get_barrier V b (regs s1)); cbn; exact L.
+  - cbn. destruct (get_barrier V b (regs s1)) eqn:G; cbn; [|exact G].
+    rewrite get_barrier_filter. now rewrite N.eqb_refl.
+Qed.
+
+(* Non-vacuity on concrete values (type tag, number): two overlapping live
+   barriers, the earlier Suspend one gets the matching triggers in order and
+   blocks source 0 until its handle is dropped; the later Noop one gets what the
+   first does not match; after the first is dropped the second gets everything
+   and nobody blocks; a Panic barrier kills the caller. *)
+Example c20_nonvacuous :
+  crun 2 [Build Suspend (ccond 0 (PGt 3)); Build Noop (ccond 0 PAny);
+          Trigger 0 (0, 5); Trigger 1 (0, 2); Trigger 0 (0, 9); Wait 1; Wait 0; Wait 0; DropHandle 1;
+          Trigger 0 (0, 7); DropBarrier 0; Trigger 0 (0, 8); Wait 1; Wait 0;
+          Build Panic (ccond 1 PAny); Trigger 1 (1, 1); Trigger 1 (0, 1)] =
+    [([0; 0], [0; 0]); ([0; 1], [0; 0]);
+     ([1], [1; 0]); ([1], [1; 0]); ([2], [1; 0]); ([4; 0; 0; 2], [1; 0]); ([4; 1; 0; 5], [1; 0]); ([3], [1; 0]);
+     ([5], [0; 0]);
+     ([1], [1; 0]); ([5], [0; 0]); ([1], [0; 0]); ([4; 2; 0; 8], [0; 0]); ([3], [0; 0]);
+     ([0; 2], [0; 0]); ([1], [0; 2]); ([2], [0; 2])].
+Proof. vm_compute. reflexivity. Qed.
+
+Check reported_once_in_order : forall (V : Type) (es : list (ev V)) (b : N),
+  let eos := combine es (snd (run V (init V) es)) in
+  (exists q, waited V b eos ++ q = expect V b [] 0 eos /\
+     (forall x, get_barrier V b (regs (final V (init V) es)) = Some x -> q = map (tv V) (b_fifo x))) /\
+  StronglySorted (tid_lt V) (expect V b [] 0 eos).
+
+Print Assumptions reported_once_in_order.
+Print Assumptions suspend_until_release.
+Print Assumptions noop_never_blocks.
+Print Assumptions panic_panics.
+Print Assumptions no_match_immediate.
+Print Assumptions c20_nonvacuous.
